@@ -40,6 +40,12 @@ type Case struct {
 	Nontrivial bool `json:"nontrivial"`
 	// Info carries anything needed to replay beyond Ops.
 	Info map[string]any `json:"info,omitempty"`
+	// KnownFrom / KnownClass: from operation index KnownFrom on (when KnownClass != ""), the history
+	// of this case is inside a recorded known-finding class that makes the model's inputs (e.g. the
+	// validity labels computed on a linear twin) unreliable for the node under test; a
+	// model/implementation disagreement at or after that operation is attributed to that class.
+	KnownFrom  int    `json:"known_from,omitempty"`
+	KnownClass string `json:"known_class,omitempty"`
 }
 
 func (c *Case) Op(op, impl string) {
@@ -189,7 +195,10 @@ func (r *Run) flushModel() {
 			}
 		}
 		r.corrCases++
-		if first >= 0 {
+		if first >= 0 && c.KnownClass != "" && first >= c.KnownFrom {
+			c.Fails = append(c.Fails, Failure{Kind: "oracle", Class: c.KnownClass, Op: first,
+				Msg: fmt.Sprintf("inside the known history class: op %d %q: implementation %q, model %q", first, c.Ops[first], c.Impl[first], c.Mod[first])})
+		} else if first >= 0 {
 			c.Fails = append(c.Fails, Failure{Kind: "corr", Class: "corr:" + strings.Fields(c.Model + " ?")[0], Op: first,
 				Msg: fmt.Sprintf("op %d %q: implementation %q, model %q", first, c.Ops[first], c.Impl[first], c.Mod[first])})
 		}
